@@ -56,10 +56,14 @@ def xops (x : XSt) : XOp → List Op
   | .tunnelEnd _ => []
   | .bulk kind p pre start n tr now => bulkOps kind p pre start n tr now
   | .sweepBegin _ => []
+  | .sweepSome ks =>
+    match x.pending with
+    | none => []
+    | some p => (ks.filter p.todo.contains).map fun k => Op.remove k p.now
   | .sweepEnd =>
     match x.pending with
     | none => []
-    | some (now, ks) => ks.map fun k => Op.remove k now
+    | some p => p.todo.map fun k => Op.remove k p.now
 
 theorem xstep_b (c : Cfg) (x : XSt) (op : XOp) : (xstep c x op).1.b = brun c (xops x op) x.b := by
   cases op with
@@ -74,14 +78,20 @@ theorem xstep_b (c : Cfg) (x : XSt) (op : XOp) : (xstep c x op).1.b = brun c (xo
     simp only [xstep, xops]
     exact bsteps_fst c _ x.b
   | sweepBegin now => rfl
+  | sweepSome ks =>
+    simp only [xstep, xops]
+    cases hp : x.pending with
+    | none => rfl
+    | some p =>
+      simp only
+      exact bremoveAll_eq_brun c p.now _ x.b
   | sweepEnd =>
     simp only [xstep, xops]
     cases hp : x.pending with
     | none => rfl
-    | some pk =>
-      obtain ⟨now, ks⟩ := pk
+    | some p =>
       simp only
-      exact bremoveAll_eq_brun c now ks x.b
+      exact bremoveAll_eq_brun c p.now p.todo x.b
 
 /-- **Every extended history is a base history** as far as the registry (both maps and the stored
 per-phantom buckets) is concerned. -/
@@ -103,7 +113,7 @@ def XOp.isTunnel : XOp → Bool
   | _ => false
 
 /-- everything of the state except the open tunnels -/
-def XSt.core (x : XSt) : BSt × Option (Nat × List Key) := (x.b, x.pending)
+def XSt.core (x : XSt) : BSt × Option Pending := (x.b, x.pending)
 
 theorem xstep_tunnel_core (c : Cfg) (x : XSt) (op : XOp) (h : op.isTunnel = true) :
     (xstep c x op).1.core = x.core := by
@@ -117,6 +127,7 @@ theorem xstep_tunnel_core (c : Cfg) (x : XSt) (op : XOp) (h : op.isTunnel = true
   | registerObj k tr now pv => cases h
   | bulk kind p pre start n tr now => cases h
   | sweepBegin now => cases h
+  | sweepSome ks => cases h
   | sweepEnd => cases h
 
 theorem xstep_core_congr (c : Cfg) (x y : XSt) (op : XOp) (h : x.core = y.core) (hn : op.isTunnel = false) :
@@ -131,6 +142,11 @@ theorem xstep_core_congr (c : Cfg) (x y : XSt) (op : XOp) (h : x.core = y.core) 
   | registerObj k tr now pv => simp only [xstep, XSt.core, hb, hp, and_self]
   | bulk kind p pre start n tr now => simp only [xstep, XSt.core, hb, hp, and_self]
   | sweepBegin now => simp only [xstep, XSt.core, hb, and_self]
+  | sweepSome ks =>
+    simp only [xstep, XSt.core, hb, hp]
+    cases y.pending with
+    | none => simp only [hb, hp, and_self]
+    | some pk => simp only [and_self]
   | sweepEnd =>
     simp only [xstep, XSt.core, hb, hp]
     cases y.pending with
